@@ -222,6 +222,9 @@ def engine_check(prop, tier, level="model_checking", n_quick=240, n_thorough=240
     n = n_quick if tier == "quick" else n_thorough
     fams = families or FAMILIES[prop]
     seeds = [(rep.seed * 1000 + i, fams[i % len(fams)]) for i in range(n)]
+    if prop == "C05" and families is None:
+        # on top of the sample (which stays what it was): runs with a displacement move that groups the particles coarsely
+        seeds += [(rep.seed * 1000 + 500000 + i, "gccoarse") for i in range(n // 10)]
     traces = qtrace.record_batch(seeds)
     errs = [t for t in traces if "harness_error" in t]
     for e in errs[:3]:
